@@ -14,8 +14,8 @@ import shutil
 import tempfile
 
 # checks of the code a property depends on (reader, tokenizer), tried when the property's own check stays quiet
-RELATED = {"C01": ["C04", "C13"], "C11": ["C04"], "C03": ["C13", "C01"], "C15": ["C13", "C12"], "C10": ["C13", "C06"], "C06": ["C13", "C12"],
-           "C14": ["C02", "C05"], "C02": ["C13"], "C20": ["C04"], "C13": ["C14", "C02"], "C09": ["C16", "C12"]}
+RELATED = {"C01": ["C04", "C13"], "C11": ["C04"], "C03": ["C13", "C01"], "C15": ["C13", "C12"], "C10": ["C13", "C06"], "C06": ["C13", "C12", "C10"],
+           "C14": ["C02", "C05"], "C02": ["C13", "C10", "C06", "C12"], "C20": ["C04"], "C13": ["C14", "C02"], "C09": ["C16", "C12"]}
 
 SCR = tempfile.mkdtemp(prefix="seedrepo-", dir="/var/tmp")
 subprocess.run(["git", "-C", "/repo", "worktree", "add", "-q", "--detach", os.path.join(SCR, "repo"), "HEAD"], check=True)
